@@ -79,9 +79,29 @@ class ScopeContext:
         await self._task_group_context.__aenter__()
 
         if self._disposables is not None:
-            self._state_context = StateContext.updated(
-                (*self._state, *await self._disposables.__aenter__())
-            )
+            try:
+                self._state_context = StateContext.updated(
+                    (*self._state, *await self._disposables.__aenter__())
+                )
+
+            except BaseException as exc:
+                # roll back what was already prepared - task group and pre-registered metrics
+                try:
+                    await self._task_group_context.__aexit__(
+                        exc_type=type(exc),
+                        exc_val=exc,
+                        exc_tb=exc.__traceback__,
+                    )
+
+                finally:
+                    self._metrics_context.__enter__()
+                    self._metrics_context.__exit__(
+                        exc_type=type(exc),
+                        exc_val=exc,
+                        exc_tb=exc.__traceback__,
+                    )
+
+                raise
 
         else:
             self._state_context = StateContext.updated(self._state)
@@ -95,30 +115,34 @@ class ScopeContext:
         exc_val: BaseException | None,
         exc_tb: TracebackType | None,
     ) -> None:
-        if self._disposables is not None:
-            await self._disposables.__aexit__(
-                exc_type=exc_type,
-                exc_val=exc_val,
-                exc_tb=exc_tb,
-            )
+        try:  # restore the surrounding context whatever happens while cleaning up
+            if self._disposables is not None:
+                await self._disposables.__aexit__(
+                    exc_type=exc_type,
+                    exc_val=exc_val,
+                    exc_tb=exc_tb,
+                )
 
-        await self._task_group_context.__aexit__(
-            exc_type=exc_type,
-            exc_val=exc_val,
-            exc_tb=exc_tb,
-        )
+        finally:
+            try:
+                await self._task_group_context.__aexit__(
+                    exc_type=exc_type,
+                    exc_val=exc_val,
+                    exc_tb=exc_tb,
+                )
 
-        self._metrics_context.__exit__(
-            exc_type=exc_type,
-            exc_val=exc_val,
-            exc_tb=exc_tb,
-        )
+            finally:
+                self._metrics_context.__exit__(
+                    exc_type=exc_type,
+                    exc_val=exc_val,
+                    exc_tb=exc_tb,
+                )
 
-        self._state_context.__exit__(
-            exc_type=exc_type,
-            exc_val=exc_val,
-            exc_tb=exc_tb,
-        )
+                self._state_context.__exit__(
+                    exc_type=exc_type,
+                    exc_val=exc_val,
+                    exc_tb=exc_tb,
+                )
 
 
 @final
